@@ -25,7 +25,9 @@ NONNEG = {
     '1040_s2_need_6251': ['6', '8', '9', '10'],
     '1040_recovery_rebate_credit_wkst': ['*'],
     '8889': ['2', '3', '4', '5', '6', '7', '8', '9', '1[0-3]', 'hsa_deduction'],
-    '8606': ['[1-9]', '1[0-7]', '15[abc]', '19', '2[0-3]', 'taxable_amount'],
+    # not line 14 (remaining basis = line 3 - line 13): the form does not floor it, and with the ratio on line 10 rounded to five places
+    # line 13 can exceed line 3 by a few cents on the unchanged tree (conversions of the whole balance)
+    '8606': ['[1-9]', '1[0-3]', '1[5-7]', '15[abc]', '19', '2[0-3]', 'taxable_amount'],
     '8959': ['[1-9]', '1[0-9]', '2[0-4]'],
     '8995': ['[4-9]', '10', '1[2-5]'],      # not line 11: 'taxable income before the QBI deduction' is AGI minus deductions, which the form does not floor
     'nc_d-400': ['10a', '10b', '11', '12a', '15', '16', '17', '18', '19', '20[ab]', '21[abcd]', '22', '23', '24', '25', '26[a-e]', '27', '28', '29', '3[0-4]'],
